@@ -40,9 +40,14 @@ def main():
             passes += rc == 0
         meta["repo_tests_pass_with_change"] = f"{passes}/3"
         meta["ran"].append("go build ./... ; go test -vet=off -count=1 ./... (3x) in a scratch worktree with the patch")
+        sub = "."
         for d in demos:
-            shutil.copy(f"{src}/{d}", f"{wt}/zz_seed_{d}" if d.endswith("_test.go") else f"{wt}/{d}")
-        demo_cmd = f"go test {race} -vet=off -count=1 ."
+            body = open(f"{src}/{d}").read()
+            if re.search(r"^package main", body, re.M):
+                sub = "./cmd/opgen/"
+            dest = f"{wt}/{sub}/zz_seed_{d}" if d.endswith("_test.go") else f"{wt}/{sub}/{d}"
+            shutil.copy(f"{src}/{d}", dest)
+        demo_cmd = f"go test {race} -vet=off -count=1 {sub}"
         rc_with, out_with = sh(demo_cmd, cwd=wt)
         fails = re.findall(r"--- FAIL: (\S+)", out_with)
         meta["demo_fails_with_change"] = rc_with != 0
